@@ -93,6 +93,8 @@ def run(case, max_steps=300000):
         sim = w.sim
         cache = RetainingMapping() if case['cache'] == 'mapping' else Lru1Mapping() if case['cache'] == 'lru1' else None
 
+        nesting = [0]
+
         def f(key):
             # a plain callable returning an awaitable (as the decorator's type allows); some invocations fail
             # right at call time, before any awaitable exists
@@ -119,9 +121,10 @@ def run(case, max_steps=300000):
             rec['after_success'] = [r['id'] for r in invs if r['key'] == key and r['kind'] == 'ret']
             invs.append(rec)
             try:
-                if plan.get('nested') is not None:
+                if plan.get('nested') is not None and nesting[0] < 2:
                     # the computation asks the cached function for its own key (in its own task), bounded by a timeout:
                     # that call can only wait for this very computation
+                    nesting[0] += 1      # (bounded: a wrapper that lets the nested call through would recurse for ever)
                     try:
                         rec['nested'] = ('ok', await aio.wait_for(wrapped(key), plan['nested']))
                     except (aio.TimeoutError, TimeoutError):
@@ -132,6 +135,8 @@ def run(case, max_steps=300000):
                         if sim.aborted:
                             raise
                         rec['nested'] = ('exc', e)
+                    finally:
+                        nesting[0] -= 1
                 if plan['dur'] >= 0:
                     await aio.sleep(plan['dur'])
                 if plan['outcome'] in ('raise', 'raise_base'):
